@@ -157,6 +157,19 @@ def job(cfg):
                                       dict(impl=fb[bad], ref=fb_ref[bad], err=float(err[bad]), n_bad=int((~(err <= TOL)).sum()), n_points=ng))
                 if cl == "dense" and full:
                     res.nontrivial_values((kind, n, na, nb, cfg["variant"], mode, p.label), fb_ref[:, 0], 9)
+                    # scale invariance: a walker with tiny columns has a tiny but non-vanishing overlap and the same force bias
+                    for sc in (1e-3, 1e3):
+                        fbs = eval_fb(trial, p.wave_data, hd, mode, "batched", Wa * sc, None if Wb is None else Wb * sc)[good]
+                        es = np.abs(fbs - fb_ref).max(axis=1) / scale
+                        es = np.where(np.isfinite(fbs).all(axis=1), es, np.inf)
+                        res.add(transitions=ng, evaluations=ng)
+                        res.guard("scaled_walker_points", ng)
+                        bad = gridmc.first_bad(es, 1e-8)
+                        if bad is not None:
+                            pt = int(np.nonzero(good)[0][bad])
+                            res.violation("%s/%s/force_bias/not-scale-invariant/par:%s" % (kind, mode, gridmc.param_class(p.label)),
+                                          dict(cfg, mode=mode, entry="scaled", label=p.label, chol=cl, point=pt, scale=sc),
+                                          dict(impl=fbs[bad], ref=fb_ref[bad], err=float(es[bad]), walker_scale=sc))
                     # the defining log-derivative of the *public* overlap along exp(x L_g) W (central differences)
                     for g in (0, SLOTS - 1):
                         h = 1e-4
@@ -201,9 +214,9 @@ def replay(case):
     kind, n, na, nb, seed = cfg["kind"], cfg["n"], cfg["na"], cfg["nb"], cfg["seed"]
     thorough = cfg["tier"] == "thorough"
     lite = cfg.get("lite", False)
-    if cfg.get("entry") == "logder":
-        r = job({k: v for k, v in cfg.items() if k not in ("mode", "entry", "label", "chol", "point", "g")})
-        v = [x for x in r.violations if "logderivative" in x["signature"]]
+    if cfg.get("entry") in ("logder", "scaled"):
+        r = job({k: v for k, v in cfg.items() if k not in ("mode", "entry", "label", "chol", "point", "g", "scale", "n_batch")})
+        v = [x for x in r.violations if ("logderivative" in x["signature"] or "scale-invariant" in x["signature"])]
         return (len(v) > 0, {"violations": [x["detail"] for x in v][:1]})
     tc = trials.build(kind, n, na, nb, seed, cfg["variant"], full_basis=thorough and not lite and kind != "multislater")
     sec = fock.sector(n, na, nb)
